@@ -1019,8 +1019,29 @@ fn pick_pos<'a>(rng: &mut Rng, poss: &'a [Pos], pred: &dyn Fn(&Pos) -> bool) -> 
 }
 /// make a (mostly valid) path ill-formed
 fn corrupt(rng: &mut Rng, v: &V, path: &mut Vec<Ix>, ints_only: bool) {
-    let choice = if ints_only { rng.below(3) } else { rng.below(7) };
+    let choice = if ints_only { *rng.pick(&[0u64, 1, 2, 7]) } else { rng.below(8) };
     match choice {
+        7 => {
+            // a missing integer key at some dict level (or pushed at the end)
+            let mut levels = vec![];
+            let mut cur = v.clone();
+            for (k, ix) in path.iter().enumerate() {
+                if matches!(cur, V::Dict(..)) {
+                    levels.push(k);
+                }
+                match index(&cur, ix) {
+                    Ok(n) => cur = n,
+                    Err(_) => break,
+                }
+            }
+            let missing = Ix::I(20 + rng.range(0, 5));
+            if levels.is_empty() {
+                path.push(missing);
+            } else {
+                let k = levels[rng.below(levels.len() as u64) as usize];
+                path[k] = missing;
+            }
+        }
         0 | 1 => {
             // out of range index at some list-like level
             let mut levels = vec![];
@@ -1167,6 +1188,8 @@ enum ARhs {
     A(Atom),
     L(Vec<Atom>),
     R(Atom, usize),
+    /// dict literal with distinct integer keys
+    D(Vec<(i64, Atom)>),
 }
 #[derive(Clone, Debug)]
 enum AStmt {
@@ -1219,6 +1242,7 @@ impl ARhs {
             ARhs::A(a) => a.tok(),
             ARhs::L(xs) => format!("l{}", xs.iter().map(|a| a.tok()).collect::<Vec<_>>().join(",")),
             ARhs::R(a, n) => format!("r{}*{}", a.tok(), n),
+            ARhs::D(es) => format!("d{}", es.iter().map(|(k, a)| format!("{}={}", k, a.tok())).collect::<Vec<_>>().join(",")),
         }
     }
     fn src(&self) -> String {
@@ -1226,6 +1250,7 @@ impl ARhs {
             ARhs::A(a) => a.src(),
             ARhs::L(xs) => format!("[{}]", xs.iter().map(|a| a.src()).collect::<Vec<_>>().join(", ")),
             ARhs::R(a, n) => format!("[{}] ** {}", a.src(), n),
+            ARhs::D(es) => format!("{{{}}}", es.iter().map(|(k, a)| format!("{}: {}", int_src(*k), a.src())).collect::<Vec<_>>().join(", ")),
         }
     }
     fn val(&self, vars: &[V]) -> V {
@@ -1233,6 +1258,13 @@ impl ARhs {
             ARhs::A(a) => a.val(vars),
             ARhs::L(xs) => V::List(xs.iter().map(|a| a.val(vars)).collect()),
             ARhs::R(a, n) => V::List(vec![a.val(vars); *n]),
+            ARhs::D(es) => {
+                let mut m = BTreeMap::new();
+                for (k, a) in es {
+                    m.insert(k.to_string(), (V::Int(*k), a.val(vars)));
+                }
+                V::Dict(m, None)
+            }
         }
     }
 }
@@ -1385,12 +1417,36 @@ fn a_apply(vars: &mut Vec<V>, st: &AStmt) -> bool {
     }
 }
 
+fn a_cont(v: &V) -> bool {
+    matches!(v, V::List(_) | V::Dict(..))
+}
+/// something to mutate: a non-empty list or any dict
+fn a_target(v: &V) -> bool {
+    matches!(v, V::Dict(..)) || matches!(v, V::List(l) if !l.is_empty())
+}
+/// does walking `p` from `v` visit a dict (including the value at the end of the path)
+fn crosses_dict(v: &V, p: &[i64]) -> bool {
+    let mut cur = v.clone();
+    for i in p {
+        if matches!(cur, V::Dict(..)) {
+            return true;
+        }
+        match index(&cur, &Ix::I(*i)) {
+            Ok(n) => cur = n,
+            Err(_) => return false,
+        }
+    }
+    matches!(cur, V::Dict(..))
+}
+fn a_key(rng: &mut Rng) -> i64 {
+    rng.range(-3, 12)
+}
 fn a_atom(rng: &mut Rng, vars: &[V], var_pct: u64) -> Atom {
     if rng.below(100) < var_pct {
-        // prefer variables that hold lists
+        // prefer variables that hold lists / dicts
         for _ in 0..3 {
             let x = rng.below(vars.len() as u64) as usize;
-            if matches!(vars[x], V::List(_)) {
+            if a_cont(&vars[x]) {
                 return Atom::Var(x);
             }
         }
@@ -1402,26 +1458,37 @@ fn a_atom(rng: &mut Rng, vars: &[V], var_pct: u64) -> Atom {
     }
 }
 fn a_rhs(rng: &mut Rng, vars: &[V], var_pct: u64) -> ARhs {
-    match rng.below(10) {
-        0..=3 => ARhs::A(a_atom(rng, vars, var_pct)),
-        4..=7 => {
+    match rng.below(13) {
+        0..=4 => ARhs::A(a_atom(rng, vars, var_pct)),
+        5..=8 => {
             let n = rng.below(5) as usize;
             ARhs::L((0..n).map(|_| a_atom(rng, vars, var_pct)).collect())
         }
-        _ => ARhs::R(a_atom(rng, vars, var_pct), rng.below(5) as usize),
+        9..=10 => ARhs::R(a_atom(rng, vars, var_pct), rng.below(5) as usize),
+        _ => {
+            // ~25 % of the container literals are dicts
+            let mut es: Vec<(i64, Atom)> = vec![];
+            for _ in 0..rng.below(4) {
+                let k = a_key(rng);
+                if es.iter().all(|(k2, _)| *k2 != k) {
+                    es.push((k, a_atom(rng, vars, var_pct)));
+                }
+            }
+            ARhs::D(es)
+        }
     }
 }
 fn a_var(rng: &mut Rng, vars: &[V], want_list: bool, hot: Option<usize>) -> usize {
     if want_list {
         // a variable that was aliased a moment ago: its payloads are shared right now
         if let Some(h) = hot {
-            if rng.chance(7, 10) && matches!(&vars[h], V::List(xs) if !xs.is_empty()) {
+            if rng.chance(7, 10) && a_target(&vars[h]) {
                 return h;
             }
         }
         for _ in 0..4 {
             let x = rng.below(vars.len() as u64) as usize;
-            if matches!(&vars[x], V::List(xs) if !xs.is_empty()) {
+            if a_target(&vars[x]) {
                 return x;
             }
         }
@@ -1442,7 +1509,7 @@ fn a_gen(rng: &mut Rng, vars: &[V], build: bool, ill: bool, hot: Option<usize>) 
     };
     let x = a_var(rng, vars, form != "as", hot);
     // nothing to mutate yet: build instead
-    let form = if !ill && form != "as" && form != "ap" && form != "ca" && !matches!(&vars[x], V::List(l) if !l.is_empty()) {
+    let form = if !ill && form != "as" && form != "ap" && form != "ca" && !a_target(&vars[x]) {
         "as"
     } else if !ill && form == "ca" && !matches!(&vars[x], V::List(_)) {
         "as"
@@ -1458,20 +1525,21 @@ fn a_gen(rng: &mut Rng, vars: &[V], build: bool, ill: bool, hot: Option<usize>) 
             let mut r = a_rhs(rng, vars, var_pct);
             for _ in 0..3 {
                 let atom_only = match &r {
-                    ARhs::A(Atom::Var(v)) => !matches!(vars[*v], V::List(_)),
+                    ARhs::A(Atom::Var(v)) => !a_cont(&vars[*v]),
                     ARhs::A(_) => true,
                     ARhs::L(xs) => xs.is_empty(),
                     ARhs::R(_, n) => *n == 0,
+                    ARhs::D(es) => es.is_empty(),
                 };
                 if !atom_only || rng.chance(1, 6) {
                     break;
                 }
                 r = a_rhs(rng, vars, var_pct);
             }
-            // prefer overwriting a variable that holds no list
+            // prefer overwriting a variable that holds no list / dict
             let mut y = y;
             for _ in 0..2 {
-                if matches!(&vars[y], V::List(l) if !l.is_empty()) {
+                if a_target(&vars[y]) {
                     y = rng.below(n) as usize;
                 }
             }
@@ -1479,13 +1547,20 @@ fn a_gen(rng: &mut Rng, vars: &[V], build: bool, ill: bool, hot: Option<usize>) 
         }
         "up" | "ca" => {
             // ill-formed: a variable that holds no list (both forms) or an index out of range (update)
-            let non_list: Vec<usize> = (0..vars.len()).filter(|i| !matches!(vars[*i], V::List(_))).collect();
+            let non_list: Vec<usize> =
+                (0..vars.len()).filter(|i| if form == "ca" { !matches!(vars[*i], V::List(_)) } else { !a_cont(&vars[*i]) }).collect();
             let bad_x = ill && !non_list.is_empty() && (form == "ca" || rng.chance(1, 3));
             let x = if bad_x { non_list[rng.below(non_list.len() as u64) as usize] } else { x };
             let y = if rng.chance(1, 4) { x } else { y };
             let atom = if rng.chance(1, 5) { Atom::Var(x) } else { a_atom(rng, vars, var_pct) };
             if form == "ca" {
                 return AStmt::Ca(y, x, atom);
+            }
+            if let V::Dict(m, _) = &vars[x] {
+                // update of a dict: overwrite an existing key or insert a new one in the copy
+                let ks: Vec<i64> = m.values().filter_map(|(k, _)| if let V::Int(n) = k { Some(*n) } else { None }).collect();
+                let i = if ks.is_empty() || rng.chance(2, 5) { a_key(rng) } else { ks[rng.below(ks.len() as u64) as usize] };
+                return AStmt::Up(y, x, i, atom);
             }
             let l = match &vars[x] {
                 V::List(xs) => xs.len() as i64,
@@ -1549,6 +1624,17 @@ fn a_gen(rng: &mut Rng, vars: &[V], build: bool, ill: bool, hot: Option<usize>) 
                 Some(p) => p.path.clone(),
                 None => return if ill { AStmt::Si(x, vec![rng.range(-2, 2)], a_rhs(rng, vars, var_pct)) } else { AStmt::As(x, a_rhs(rng, vars, var_pct)) },
             };
+            // a dict as the last container: insert a NEW key ~40 % of the time (insertion through aliases)
+            if let Some(dp) = if rng.chance(1, 4) { pick_pos(rng, &poss, &|p| p.kind == Kind::Dict) } else { None } {
+                path = dp.path.clone();
+                path.push(Ix::I(a_key(rng)));
+            } else if !path.is_empty() && rng.chance(2, 5) {
+                let parent = get_path(&vars[x], &path[..path.len() - 1]);
+                if matches!(parent, Ok(V::Dict(..))) {
+                    let l = path.len();
+                    path[l - 1] = Ix::I(a_key(rng));
+                }
+            }
             if ill {
                 corrupt(rng, &vars[x], &mut path, true);
             }
@@ -1589,8 +1675,16 @@ fn a_gen(rng: &mut Rng, vars: &[V], build: bool, ill: bool, hot: Option<usize>) 
             AStmt::Po(y, x, ints_of(&path))
         }
         "rm" => {
-            let pos = pick_pos(rng, &poss, &|p| is_list(p) && p.len > 0);
+            let pos = pick_pos(rng, &poss, &|p| (is_list(p) || p.kind == Kind::Dict) && p.len > 0);
             match pos {
+                Some(p) if p.kind == Kind::Dict => {
+                    let ks: Vec<i64> = match get_path(&vars[x], &p.path) {
+                        Ok(V::Dict(m, _)) => m.values().filter_map(|(k, _)| if let V::Int(n) = k { Some(*n) } else { None }).collect(),
+                        _ => vec![],
+                    };
+                    let i = if ill || ks.is_empty() { 20 + rng.range(0, 5) } else { ks[rng.below(ks.len() as u64) as usize] };
+                    AStmt::Rm(y, x, ints_of(&p.path), i)
+                }
                 Some(p) => {
                     let l = p.len as i64;
                     let i = if ill {
@@ -1651,6 +1745,8 @@ struct ARec {
     shared: bool,
     /// `up` / `ca` on a list: the payload is shared between the variable and the callee while it runs
     copies: bool,
+    /// the statement's path crosses or ends in a dict (arm suffix `+dict`)
+    dict: bool,
     outcome: &'static str,
 }
 struct AHist {
@@ -1722,8 +1818,9 @@ fn run_a_shard(mut rng: Rng, n_hist: usize, max_len: usize, driver: &str) -> Loc
                 let atoms: Vec<&Atom> = match r {
                     ARhs::A(a) | ARhs::R(a, _) => vec![a],
                     ARhs::L(xs) => xs.iter().collect(),
+                    ARhs::D(es) => es.iter().map(|(_, a)| a).collect(),
                 };
-                atoms.iter().find_map(|a| if let Atom::Var(v) = a { if matches!(vars[*v], V::List(_)) { Some(*v) } else { None } } else { None })
+                atoms.iter().find_map(|a| if let Atom::Var(v) = a { if a_cont(&vars[*v]) { Some(*v) } else { None } } else { None })
             };
             hot = match &st {
                 AStmt::As(x, r) | AStmt::Si(x, _, r) | AStmt::Ap(x, _, r) => match rhs_var(r) {
@@ -1734,8 +1831,15 @@ fn run_a_shard(mut rng: Rng, n_hist: usize, max_len: usize, driver: &str) -> Loc
             };
             let src = st.src();
             let copies = match &st {
-                AStmt::Up(_, x, _, _) | AStmt::Ca(_, x, _) => matches!(vars[*x], V::List(_)),
+                AStmt::Up(_, x, _, _) | AStmt::Ca(_, x, _) => a_cont(&vars[*x]),
                 _ => false,
+            };
+            let dict = match &st {
+                AStmt::As(_, r) => matches!(r.val(&vars), V::Dict(..)),
+                AStmt::Si(x, p, r) | AStmt::Ap(x, p, r) => crosses_dict(&vars[*x], p) || matches!(r, ARhs::D(_)),
+                AStmt::Po(_, x, p) | AStmt::Co(_, x, p) | AStmt::Rm(_, x, p, _) => crosses_dict(&vars[*x], p),
+                AStmt::Sw(x, px, y, py) | AStmt::Apo(x, px, y, py) => crosses_dict(&vars[*x], px) || crosses_dict(&vars[*y], py),
+                AStmt::Up(_, x, _, _) | AStmt::Ca(_, x, _) => matches!(vars[*x], V::Dict(..)),
             };
             let out = interp.eval(&src);
             let dump = dump_real(&interp, &names);
@@ -1750,6 +1854,7 @@ fn run_a_shard(mut rng: Rng, n_hist: usize, max_len: usize, driver: &str) -> Loc
                 depth: st.depth(),
                 shared,
                 copies,
+                dict,
                 outcome: outcome_name(&out),
             });
         }
@@ -1787,7 +1892,7 @@ fn run_a_shard(mut rng: Rng, n_hist: usize, max_len: usize, driver: &str) -> Loc
                 loc.raised_cases += 1;
             }
             let class = if raised { "fail" } else if r.shared { "shared" } else { "plain" };
-            loc.arm(&format!("{}:{}", r.form, class));
+            loc.arm(&format!("{}{}:{}", r.form, if r.dict { "+dict" } else { "" }, class));
             loc.arm(&format!("depth:d{}:{}", r.depth.min(5), class));
             loc.outcome(r.outcome);
             if r.refd != spec_d[i] {
@@ -3281,7 +3386,7 @@ fn main() {
     let mut rep = Report::new("C01", &args);
     rep.rule = "PART A: random histories (quick 400 x <=25, thorough 20000 x <=60 statements) over 2..5 variables in the \
                 vocabulary of the Lean model (x = rhs, x[path] = rhs, x[path] append= rhs, y = pop x[path], y = remove x[path][i], \
-                y = consume x[path], swap x[px], y[py], y = x{i = atom}, y = x append atom, x[p] append= pop y[q]; rhs = atom | [atoms] | [atom] ** n); the first third of a history builds \
+                y = consume x[path], swap x[px], y[py], y = x{i = atom}, y = x append atom, x[p] append= pop y[q]; rhs = atom | [atoms] | [atom] ** n | {int key: atom, ...}; every path index is a list index or, on a dict, an integer key -3..12); the first third of a history builds \
                 nested lists that share payloads (qb = [qa, qa], [qa] ** 3, qa[1] = qb, qa append= qa), the rest mutates one \
                 holder through every form at depth 0..4 with paths that are valid in a shadow store, ~15 % deliberately \
                 ill-formed (index out of range, indexing an int/null, pop of empty/non-list, append to non-list, remove out of \
